@@ -4,7 +4,7 @@ from . import common as cm
 from . import stubs
 
 ID = 'C13'
-FUNCTIONS = ['flowdyn.modeldisc.fvm1d.{cons2prim,calc_grad,calc_bc_grad,interp_face,calc_bc,calc_flux,calc_res,calc_timestep}',
+FUNCTIONS = ['flowdyn.integration.implicitmodel.calc_jacobian (units of the finite-difference Jacobian)', 'flowdyn.modeldisc.fvm1d.{cons2prim,calc_grad,calc_bc_grad,interp_face,calc_bc,calc_flux,calc_res,calc_timestep}',
              'flowdyn.xnum.* interp_face (all 1D reconstructions, limiters)', 'flowdyn.modelphy.*.bc_* (with dir=-1/+1)',
              'flowdyn.modelphy.*.numflux_* (inline: every flux for the units clause; every flux except hllc for the reflection clause, hllc '
              'through its mirror contract proved in C02)', 'flowdyn.modelphy.*.{cons2prim,prim2cons,timestep}',
@@ -92,6 +92,14 @@ def configs(tier):
             if num == 'muscl:abstract' or not q:
                 c.update(timeout_ms=120000, budget_s=280 if q else 3000)
             out.append(c)
+    # ---- the finite-difference Jacobian of the implicit family (its perturbation must scale with the state: no absolute scale)
+    for model, fl in (('euler1d', 'centered'), ('shallowwater', 'centered'), ('convection', None)):
+        c = {'level': 'jacobian-units', 'model': model, 'flux': fl, 'explore': True, 'n': 3}
+        if model == 'euler1d':
+            if q:
+                continue          # 81 entries: thorough tier only
+            c.update(gamma='2', budget_s=3000)
+        out.append(c)
     # ---- driver level: solve() with save times on a problem and its rescaled / reflected twin
     for clause in ('reflection', 'units'):
         for integ in (('explicit', 'rk3ssp') if q else ('explicit', 'rk2', 'rk3ssp', 'rk4', 'lsrk25bb')):
@@ -115,7 +123,37 @@ def configs(tier):
 
 def harness(cfg, B):
     return {'operator': _operator, 'integrator': _integrator, 'flux-units': _flux_units, 'bc-units': _bc_units,
-            'state-units': _state_units, 'driver': _driver}[cfg['level']](cfg, B)
+            'state-units': _state_units, 'driver': _driver, 'jacobian-units': _jacobian_units}[cfg['level']](cfg, B)
+
+
+def _jacobian_units(cfg, B):
+    """calc_jacobian of the real operator in two unit systems: J_B[(i,k),(j,q)] = J_A[(i,k),(j,q)] * scale(Q_k)/scale(Q_q) / scale(time)"""
+    fd = B.fd
+    mname, n = cfg['model'], cfg['n']
+    modelA = cm.make_model(B, fd, cfg)
+    sc = _scales(B, mname)
+    modelB = _scaled_model(B, fd, cfg, modelA, sc)
+    primA, consA = cm.make_state(B, mname, modelA, n)
+    consB = [c * s for c, s in zip(consA, sc['cons'])]
+    zero = B.const(0)
+    for c in consA:
+        B.assume(sum((abs(x) for x in c), zero) > 0)
+    xf = cm.mono_faces(B, n)
+    meshA = cm.mesh_with_faces(B, fd, xf)
+    meshB = cm.mesh_with_faces(B, fd, xf * sc['len'])
+    per = {'type': 'per'}
+    rA = fd.modeldisc.fvm(modelA, meshA, fd.xnum.extrapol1(), numflux=cfg.get('flux'), bcL=per, bcR=per)
+    rB = fd.modeldisc.fvm(modelB, meshB, fd.xnum.extrapol1(), numflux=cfg.get('flux'), bcL=per, bcR=per)
+    JA = fd.integration.implicit(meshA, rA).calc_jacobian(fd.field.fdata(modelA, meshA, [c.copy() for c in consA]))
+    JB = fd.integration.implicit(meshB, rB).calc_jacobian(fd.field.fdata(modelB, meshB, [c.copy() for c in consB]))
+    neq = modelA.neq
+    scl = [sc['_a'], sc['_b'], sc['_l']]
+    for i in range(n):
+        for k in range(neq):
+            for j in range(n):
+                for q in range(neq):
+                    B.ob('J(scaled)=scale*J[%d,%d][%d,%d]' % (i, k, j, q), 'eq', JB[i * neq + k][j * neq + q],
+                         JA[i * neq + k][j * neq + q] * sc['cons'][k] / sc['cons'][q] / sc['time'], method='sweep', scales=scl)
 
 
 def _scaled_model(B, fd, cfg, modelA, sc):
